@@ -87,6 +87,7 @@ type vstate struct {
 	bgDone   chan struct{}
 	snap     func(kind, phase, path string) // fs.* callback (crash family)
 	gate     func(proc, point string)       // generic gate (conc family)
+	gateArgs func(proc, point string, a []interface{})
 	keyName  map[string]string              // real key -> model key
 	hashName map[uint64]string              // real hash -> model hash id
 	bucket   int
@@ -107,6 +108,7 @@ func (s *vstate) reset() {
 	s.hashName = map[uint64]string{}
 	s.snap = nil
 	s.gate = nil
+	s.gateArgs = nil
 	s.crash = nil
 	s.mu.Unlock()
 }
@@ -229,6 +231,10 @@ func vhook(point string, a ...interface{}) {
 	}
 	if vs.gate != nil {
 		vs.gate(p, point)
+	}
+	if ga := vs.gateArgs; ga != nil {
+		ga(p, point, a)
+		p = vs.proc()
 	}
 	if !vs.micro {
 		return
